@@ -165,23 +165,19 @@ def d4_is_aligned(chk, repo):
         chk.ob(f"mesh.Mesh.is_aligned::refuses::{key}", okg, "C14.D4", det, w.f)
     chk.ob("mesh.Mesh.is_aligned::cells-compared", okc, "C14.D4",
            "different cell sizes (beyond the tolerance) must give False", v.f)
-    loops = [s for s in v.stmts() if isinstance(s, ast.For)]
-    ok = False
-    if len(loops) == 1:
-        lp = loops[0]
-        it = v.term(lp.iter, at=lp)
-        c_ = each(v, it)
-        env = {"c": c_}
-        diff = v.spec("np.subtract(getattr(self.region, c), getattr(other.region, c))", env=env)
+    # (a loop over the literal list ['pmin', 'pmax'] is read as its two iterations)
+    tol = v.spec("tolerance")      # a local alias of the parameter resolves to the parameter itself
+    falses = [r for r in v.returns() if r.value is not None and is_const(v.ctx, v.ev.term(r.value, at=r), False)]
+    found = set()
+    for corner in ("pmin", "pmax"):
+        diff = v.spec(f"np.subtract(self.region.{corner}, other.region.{corner})")
         rem = v.spec("np.remainder(abs(D), self.cell)", env={"D": diff})
-        tol = v.spec("tolerance")      # a local alias of the parameter resolves to the parameter itself
         want = v.spec("np.logical_and(np.greater(R, t), np.less(R, np.subtract(self.cell, t))).any()", env={"R": rem, "t": tol})
-        for s2 in lp.body:
-            if isinstance(s2, ast.If) and s2.body and isinstance(s2.body[-1], ast.Return):
-                ct = v.ev.term(s2.test, at=s2)
-                rv = v.ev.term(s2.body[-1].value, at=s2.body[-1])
-                ok = v.eq(ct, want) and is_const(v.ctx, rv, False) and v.eq(it, v.spec("['pmin', 'pmax']")) and \
-                    is_sym(v.ctx, tol, "param:tolerance")
+        for r in falses:
+            par = v.cfg.parent.get(id(r))
+            if par and isinstance(par[0], ast.If) and par[1] == "body" and v.eq(v.ev.term(par[0].test, at=par[0]), want):
+                found.add(corner)
+    ok = found == {"pmin", "pmax"} and is_sym(v.ctx, tol, "param:tolerance")
     chk.ob("mesh.Mesh.is_aligned::corner-remainders", ok, "C14.D4",
            "both pmin and pmax differences must be whole multiples of the cell size up to the tolerance", v.f)
     rets = [r for r in v.returns() if r.value is not None and is_const(v.ctx, v.ev.term(r.value, at=r), True)]
